@@ -1,0 +1,45 @@
+//go:build verif
+
+package builder
+
+import (
+	"time"
+
+	"github.com/buildbarn/bb-remote-execution/pkg/proto/remoteworker"
+)
+
+// VerifWorkerState is a read-only snapshot of the mutable fields of a
+// BuildClient. It is only used by the model checking harness in
+// /verif/harness/worker to compute canonical state keys. It must only
+// be called while the worker thread is not running (quiescent point),
+// or from the worker thread itself.
+type VerifWorkerState struct {
+	// CurrentState is the live (not cloned) current state message
+	// that the next SynchronizeRequest will carry.
+	CurrentState *remoteworker.CurrentState
+	// SchedulerMayThinkExecutingUntil is a copy of the field of the
+	// same name, or nil.
+	SchedulerMayThinkExecutingUntil *time.Time
+	NextSynchronizationAt           time.Time
+	// ExecutionActive is true if executionCancellation != nil.
+	ExecutionActive bool
+	// PendingUpdates is len(executionUpdates).
+	PendingUpdates int
+}
+
+// VerifWorkerDump returns a snapshot of the BuildClient's mutable state.
+func VerifWorkerDump(bc *BuildClient) VerifWorkerState {
+	s := VerifWorkerState{
+		CurrentState:          bc.request.CurrentState,
+		NextSynchronizationAt: bc.nextSynchronizationAt,
+		ExecutionActive:       bc.executionCancellation != nil,
+	}
+	if bc.schedulerMayThinkExecutingUntil != nil {
+		t := *bc.schedulerMayThinkExecutingUntil
+		s.SchedulerMayThinkExecutingUntil = &t
+	}
+	if bc.executionUpdates != nil {
+		s.PendingUpdates = len(bc.executionUpdates)
+	}
+	return s
+}
